@@ -204,62 +204,4 @@ theorem flow_convertBS (h h' : HubSt) (e : HubEnv) (amount : Nat) (user : Addr) 
     exact k
 
 
-/-- Unbond (stSei), on fresh pools: the request joins the open batch (and the tokens are burnt
-    later), or the whole batch is undelegated at the stored rates -/
-theorem flow_unbondS (h h' : HubSt) (e : HubEnv) (amount : Nat) (user : Addr) (ms : List Msg)
-    (hx : h.unbondS e amount user = .ok (h', ms))
-    (hself : e.self = hubA) (hb : h.bsei = some bseiA) (hs : h.stsei = some stseiA)
-    (bs ss : Nat) (hbs : e.supplyOf bseiA = .ok bs) (hss : e.supplyOf stseiA = .ok ss)
-    (ns : h.bBond + h.sBond ≤ (e.delegations.map (·.2)).sum)
-    (hd : e.delegations ≠ []) (hz : h.bBond + h.sBond ≠ 0)
-    (trb : TR (rateOf h.bBond bs h.reqB) h.bBond bs h.reqB 0 0)
-    (trs : TR (rateOf h.sBond ss h.reqS) h.sBond ss h.reqS 0 0) :
-    TR (rateOf h.bBond bs h.reqB) h'.bBond bs h'.reqB (mintsTo bseiA ms) (burnsBy bseiA ms) ∧
-    TR (rateOf h.sBond ss h.reqS) h'.sBond ss h'.reqS (mintsTo stseiA ms) (burnsBy stseiA ms) := by
-  obtain ⟨st, tok, hst, _, htok, hcase⟩ := unbondS_spec h h' e amount user ms hx
-  have f := fresh_state h st e hst hb hs bs ss hbs hss ns hd hz
-  have htk : tok = stseiA := by rw [hs] at htok; injection htok with h1; exact h1.symm
-  subst htk
-  unfold TR at trb trs
-  simp only [Nat.mul_zero, Nat.add_zero] at trb trs
-  rcases hcase with ⟨_, um, hp, hms⟩ | ⟨_, hh, hms⟩
-  · -- the batch is closed
-    have sp := processUndelegations_spec _ _ _ _ hp
-    obtain ⟨hpick, hls, hlb, es, eb, _, _, rb0', rs0', _⟩ := sp
-    have st1 := flows_of_stake bseiA um (undelegs_stake e _ um hself hpick).1
-    have st2 := flows_of_stake stseiA um (undelegs_stake e _ um hself hpick).1
-    subst hms
-    rw [hself]
-    simp only [mintsTo_append, burnsBy_append, st1.1, st1.2, st2.1, st2.2, (flows_burn bseiA stseiA amount).1,
-      (flows_burn bseiA stseiA amount).2, (flows_burn stseiA stseiA amount).1, (flows_burn stseiA stseiA amount).2,
-      if_true, if_neg bsei_ne_stsei.symm, Nat.zero_add, Nat.add_zero, rb0', rs0', es, eb]
-    simp only [afterUnbondS, addWait, f.1, f.2.1, f.2.2.1, f.2.2.2.1, f.2.2.2.2.1, f.2.2.2.2.2.1] at hls hlb ⊢
-    unfold TR
-    constructor
-    · have m1 := mulDec_mul_le h.reqB (rateOf h.bBond bs h.reqB)
-      have m2 : mulDec h.reqB (rateOf h.bBond bs h.reqB) * D ≤ h.bBond * D := Nat.mul_le_mul_right _ hlb
-      rw [Nat.sub_mul]
-      rw [Nat.mul_add, Nat.mul_comm (rateOf h.bBond bs h.reqB) h.reqB] at trb
-      simp only [Nat.mul_zero, Nat.add_zero]
-      omega
-    · have m1 := mulDec_mul_le (h.reqS + amount) (rateOf h.sBond ss h.reqS)
-      have m2 : mulDec (h.reqS + amount) (rateOf h.sBond ss h.reqS) * D ≤ h.sBond * D := Nat.mul_le_mul_right _ hls
-      rw [Nat.sub_mul]
-      rw [Nat.mul_add, Nat.mul_comm (rateOf h.sBond ss h.reqS) h.reqS] at trs
-      rw [Nat.add_mul] at m1
-      simp only [Nat.add_zero]
-      rw [Nat.mul_comm (rateOf h.sBond ss h.reqS) amount]
-      omega
-  · subst hms; subst hh
-    rw [hself]
-    simp only [(flows_burn bseiA stseiA amount).1, (flows_burn bseiA stseiA amount).2,
-      (flows_burn stseiA stseiA amount).1, (flows_burn stseiA stseiA amount).2, if_true, if_neg bsei_ne_stsei.symm,
-      afterUnbondS, addWait, f.1, f.2.1, f.2.2.1, f.2.2.2.1]
-    unfold TR
-    constructor
-    · simp only [Nat.mul_zero, Nat.add_zero]; exact trb
-    · simp only [Nat.add_zero]
-      rw [show ss + (h.reqS + amount) = (ss + h.reqS) + amount by omega, Nat.mul_add]
-      omega
-
 end Krp
